@@ -5,6 +5,9 @@ use crate::{
 #[cfg(any(debug_assertions, leptos_debuginfo))]
 use std::cell::Cell;
 use std::{cell::RefCell, panic::Location, rc::Rc};
+#[cfg(leptos_verif)]
+use crate::renderer::dom::{Comment, Element, Node, Text};
+#[cfg(not(leptos_verif))]
 use web_sys::{Comment, Element, Node, Text};
 
 /// Hydration works by walking over the DOM, adding interactivity as needed.
@@ -133,6 +136,13 @@ pub(crate) fn failed_to_cast_element(tag_name: &str, node: Node) -> Element {
             .take()
             .map(|n| n.to_string())
             .unwrap_or_else(|| "{unknown}".to_string());
+        #[cfg(leptos_verif)]
+        crate::renderer::native_dom::hydration_error(
+            &hydrating,
+            &format!("HTML <{tag_name}> element"),
+            &node,
+        );
+        #[cfg(not(leptos_verif))]
         web_sys::console::error_3(
             &wasm_bindgen::JsValue::from_str(&format!(
                 "A hydration error occurred while trying to hydrate an \
@@ -165,6 +175,13 @@ pub(crate) fn failed_to_cast_marker_node(node: Node) -> Comment {
             .take()
             .map(|n| n.to_string())
             .unwrap_or_else(|| "{unknown}".to_string());
+        #[cfg(leptos_verif)]
+        crate::renderer::native_dom::hydration_error(
+            &hydrating,
+            "marker node",
+            &node,
+        );
+        #[cfg(not(leptos_verif))]
         web_sys::console::error_3(
             &wasm_bindgen::JsValue::from_str(&format!(
                 "A hydration error occurred while trying to hydrate an \
@@ -197,6 +214,13 @@ pub(crate) fn failed_to_cast_text_node(node: Node) -> Text {
             .take()
             .map(|n| n.to_string())
             .unwrap_or_else(|| "{unknown}".to_string());
+        #[cfg(leptos_verif)]
+        crate::renderer::native_dom::hydration_error(
+            &hydrating,
+            "text node",
+            &node,
+        );
+        #[cfg(not(leptos_verif))]
         web_sys::console::error_3(
             &wasm_bindgen::JsValue::from_str(&format!(
                 "A hydration error occurred while trying to hydrate an \
